@@ -70,6 +70,7 @@ func drawPlan(r *rng, stateful bool) kernel.Plan {
 	if stateful {
 		p.ClonerPct = []int{0, 30, 60}[r.intn(3)]
 	}
+	p.NilValPct = []int{0, 0, 30, 60}[r.intn(4)]
 	return p
 }
 
@@ -171,6 +172,9 @@ func drawOpts(r *rng, gp *genParser, memoPct, recoverFalsePct int) parsersim.Opt
 	}
 	if r.chance(1, 6) {
 		o.UseReader = true
+	}
+	if r.chance(1, 3) {
+		o.Shuffle = r.u64() | 1
 	}
 	return o
 }
